@@ -111,6 +111,12 @@ def conds_c08(tier):
                                      timeout=400, label=f"c08_cut_{nm}_k{k}_{kind}",
                                      twin=(k % 4 == 0)))
     cs += ordering_lemma()
+    # for file-backed stores the cut can also be the process dying between two FILE operations of one store write: the
+    # death-index conditions of C11 (the store then holds the complete old or the complete new value, and its modified time
+    # changes only with the new value -- exactly what the cut model above assumes of a store)
+    from . import fs_checks
+
+    cs += [c for c in fs_checks.conds_c11(tier) if c.label.endswith("_die")]
     return cs, info
 
 
